@@ -15,6 +15,15 @@ PROPS = {
     "C04": dict(machine="quantity", level="exploration",
                 quick=dict(runs=16000, cap=60, selftest=150),
                 thorough=dict(runs=400000, cap=900, selftest=1500)),
+    "C14": dict(machine="dipstore", level="exploration",
+                quick=dict(runs=6000, cap=80, selftest=100),
+                thorough=dict(runs=150000, cap=1200, selftest=1000)),
+    "C16": dict(machine="dipstore", level="exploration",
+                quick=dict(runs=6000, cap=80, selftest=100),
+                thorough=dict(runs=150000, cap=1200, selftest=1000)),
+    "C17": dict(machine="dipstore", level="exploration",
+                quick=dict(runs=6000, cap=80, selftest=100),
+                thorough=dict(runs=150000, cap=1200, selftest=1000)),
     "C20": dict(machine="helpers", level="exploration", pure="pure_clauses",
                 quick=dict(runs=24000, cap=60, selftest=200),
                 thorough=dict(runs=600000, cap=900, selftest=2000)),
@@ -31,6 +40,9 @@ def machine(name):
     if name == "quantity":
         from .m_quantity import QuantityMachine
         return QuantityMachine
+    if name == "dipstore":
+        from .m_dipstore import DipStoreMachine
+        return DipStoreMachine
     if name == "helpers":
         from .m_helpers import HelpersMachine
         return HelpersMachine
